@@ -517,7 +517,13 @@ class TermBuilder:
         if isinstance(op, ast.LShift):
             return self.term(e.left) * exp2(self.term(e.right))
         if isinstance(op, ast.RShift):
-            return fapp("floor", self.term(e.left) * exp2(-self.term(e.right)))
+            lt, rt = self.term(e.left), self.term(e.right)
+            rv = rt.const_value()
+            if rv is not None and len(lt.m) == 1:
+                (mono, c), = lt.m.items()
+                if c == 1 and len(mono) == 1 and mono[0][0][0] == "exp2":
+                    return exp2(mono[0][0][1] - rt)     # 2^L >> k = 2^(L-k)  (L >= k assumed: word lengths >= 1)
+            return fapp("floor", lt * exp2(-rt))
         l = self.term(e.left)
         r = self.term(e.right)
         if isinstance(op, ast.Add):
